@@ -77,7 +77,11 @@ func c13(r *R) {
 			}
 		}
 		// Nth
+		nthIdx := append([]int{}, extremeInts...)
 		for i := -(len(s) + 3); i <= len(s)+3; i++ {
+			nthIdx = append(nthIdx, i)
+		}
+		for _, i := range nthIdx {
 			var g int
 			var err error
 			p, msg := enum.Try(func() { g, err = gogu.Nth(cp(s), i) })
@@ -89,6 +93,9 @@ func c13(r *R) {
 				cls := "out-of-range-index"
 				if len(s) == 0 {
 					cls = "empty-slice"
+				}
+				if isExtreme(i) {
+					cls = "extreme-index"
 				}
 				r.Bad("Nth/panic/"+cls, wit, "panicked: %s", msg)
 			case valid && err != nil:
@@ -233,6 +240,22 @@ func c13Other(r *R) {
 			}
 			if g := gogu.Compare(a, b, gt); g != -want {
 				r.Bad("Compare/wrong", fmt.Sprintf("Compare(%d,%d,>)", a, b), "got %d, want %d", g, -want)
+			}
+			// "Compare reflects the comparator", whatever the comparator: 1 when comp(a,b), else -1 when comp(b,a), else 0
+			for _, cf := range []struct {
+				name string
+				f    func(a, b int) bool
+			}{{"<=", func(a, b int) bool { return a <= b }}, {">=", func(a, b int) bool { return a >= b }}, {"==", func(a, b int) bool { return a == b }}, {"true", func(a, b int) bool { return true }}, {"false", func(a, b int) bool { return false }}} {
+				w := 0
+				if cf.f(a, b) {
+					w = 1
+				} else if cf.f(b, a) {
+					w = -1
+				}
+				r.Eval("Compare")
+				if g := gogu.Compare(a, b, cf.f); g != w {
+					r.Bad("Compare/wrong/non-strict-comparator", fmt.Sprintf("Compare(%d,%d,%s)", a, b, cf.name), "got %d, want %d", g, w)
+				}
 			}
 			if gogu.Less(a, b) != (a < b) || gogu.Equal(a, b) != (a == b) {
 				r.Bad("Less-Equal/wrong", fmt.Sprintf("Less/Equal(%d,%d)", a, b), "got %t %t", gogu.Less(a, b), gogu.Equal(a, b))
